@@ -12,7 +12,8 @@
 
   OBLIGATIONS (checked by the harness):
     hints_table nonmatching_passthrough nonmatching_template_irrelevant
-    declaration_order_pipeline pipeline_stages single_template_is_tree_rewrite select_returns_parts
+    declaration_order_pipeline pipeline_stages single_template_is_tree_rewrite filter_is_chain_of_rewrites
+    select_returns_parts
     first_match_wins
     identity_body_is_identity
     identity_templates_passthrough filter_terminates render_declarations_first
@@ -30,6 +31,7 @@ import Genshi.Lemmas.MatchPipeline2
 import Genshi.Lemmas.MatchIdentity
 import Genshi.Lemmas.MatchTotal
 import Genshi.Lemmas.MatchSpec
+import Genshi.Lemmas.MatchChain
 import Genshi.Model.MatchPath
 import Genshi.Model.MatchLazy
 import Genshi.Gen.MatchHints
@@ -108,6 +110,20 @@ theorem single_template_is_tree_rewrite {σ : Type} (t : MT σ) (b : σ) (i : Na
     (h : run f i (some (i + 1)) (evItems (flattenList ns)) M = some r) :
     r.2 = specList t b anc ns ∧ SlotAt i t b anc r.1 :=
   stage_is_spec t b i hl ho f ns anc M r hns hslot h
+
+/-- **The filter is a chain of tree rewrites**, one per template, in declaration order — the property's
+    first sentence in one statement.  For every forest and every template list whose templates of the
+    window `[s, s+k)` are live, without `once`, lawful and do not read `updateonly`: what the filter
+    yields on the flattened forest is obtained by rewriting the whole document with the first template
+    (`specList`: every element at which its matcher fires is replaced by its body, `select()` giving the
+    element's parts; every other event unchanged), re-reading the result as a forest, rewriting it with
+    the second template, and so on (`Chain`). -/
+theorem filter_is_chain_of_rewrites {σ : Type} (k s f : Nat) (ns : List Node) (M : List (MT σ))
+    (r : List (MT σ) × List Event) (hns : okList ns = true)
+    (hst : ∀ j t, s ≤ j → j < s + k → M[j]? = some t → StageOK t) (hlen : s + k ≤ M.length)
+    (hok : ∀ t ∈ M, OKt t) (h : run f s (some (s + k)) (evItems (flattenList ns)) M = some r) :
+    Chain M s k ns r.2 :=
+  run_is_chain k s f ns M r hns hst hlen hok h
 
 /-- **select() returns the matched element's parts.**  On the content `<tg …>kids</tg>` of a matched
     element, `select('.')` is the whole element and each child path (`node()`, `*`, `text()`,
@@ -402,6 +418,15 @@ def forest1 : List Node :=
 example : specList tAB {} [] forest1 = [S 'a', S 'x', E 'x', T 'u', E 'a', S 'b', E 'b'] := by decide
 example : (run 30 0 (some 1) (evItems (flattenList forest1)) [tAB]).map (·.2) = some (specList tAB {} [] forest1) := by
   decide
+example : StageOK tAB ∧ StageOK tWrap := by
+  refine ⟨⟨rfl, rfl, lawful_simple _ _ _, fun _ _ _ _ => rfl, ?_⟩, ⟨rfl, rfl, lawful_single _ _ _, fun _ _ _ _ => rfl, ?_⟩⟩
+  · intro st; simp [tAB, mkMT, MT.ofHints, trackB, track, S, E]
+  · intro st; simp [tWrap, mkMT, MT.ofHints, trackB, track, S, E]
+/-- the two stages of `[a/b → <x/>, a → <w>*</w>]` on `forest1`, spelled out -/
+example : specList tWrap {} [] [.elem ⟨[], ['a']⟩ [] [.elem ⟨[], ['x']⟩ [] [], .leaf (T 'u')], .elem ⟨[], ['b']⟩ [] []]
+    = [S 'w', S 'x', E 'x', E 'w', S 'b', E 'b'] := by decide
+example : (run 40 0 (some 2) (evItems (flattenList forest1)) [tAB, tWrap]).map (·.2)
+    = some [S 'w', S 'x', E 'x', E 'w', S 'b', E 'b'] := by decide
 example : SlotAt 0 tAB ({} : PSt) [] [tAB] := ⟨tAB, rfl, Shape.refl _, rfl, rfl⟩
 
 example : NeverFires (σ := PSt) { step := fun st _ _ => (st, false), st := {}, body := [] } := fun _ _ _ => rfl
